@@ -159,3 +159,19 @@ Proof.
   apply (pass_all_selected (abc_prob total) (1 # 10)%Q fits 0 s r); [|exact Hd|exact H].
   intros f Hf. apply C03_onlooker_probability_floor. apply Hs. exact Hf.
 Qed.
+
+(* ------------------------------------------------------------------ the validation of T2 cannot raise a false alarm by itself
+   Trace inclusion (props/_ir.py: trace_inclusion) rejects a real trace when Analysis/Accept.v's matcher finds no execution of
+   the regenerated program that produces it.  The matcher is COMPLETE w.r.t. the semantics: every run of every IR program (any
+   oracle, objective, box; any hook keeping the population size) is accepted, with the draw events or with them filtered out
+   (GP).  So a rejected real trace always means that the program (the translator) or the semantics misdescribes the code. *)
+From OV Require Import Analysis.Accept Analysis.AcceptSound.
+
+Theorem C03_every_run_is_accepted_by_the_trace_matcher : forall p lbs ubs f hk n_iter okc o x x' evs o',
+  (forall y, length (pop (hk y)) = length (pop y)) ->
+  run lbs ubs f hk n_iter okc p o x = Some (x', evs, o') ->
+  exists tr, tr_run lbs ubs f hk n_iter okc p o x = Some (x', evs, o', tr) /\
+             obs evs = visible tr /\
+             accepts (length (pop x)) n_iter true p tr = true /\
+             accepts (length (pop x)) n_iter false p (filter (fun e => negb (oev_eqb e OR)) tr) = true.
+Proof. exact run_accepted. Qed.
